@@ -81,11 +81,12 @@ func checkCompositeLiteral(
 		return nil
 	}
 
-	if ptr, ok := t.(*types.Pointer); ok {
+	// a type alias stands for the type it denotes
+	if ptr, ok := types.Unalias(t).(*types.Pointer); ok {
 		t = ptr.Elem()
 	}
 
-	named, ok := t.(*types.Named)
+	named, ok := types.Unalias(t).(*types.Named)
 	if !ok {
 		return nil
 	}
@@ -142,11 +143,12 @@ func checkNewCall(
 		return nil
 	}
 
-	if ptr, ok := t.(*types.Pointer); ok {
+	// a type alias stands for the type it denotes
+	if ptr, ok := types.Unalias(t).(*types.Pointer); ok {
 		t = ptr.Elem()
 	}
 
-	named, ok := t.(*types.Named)
+	named, ok := types.Unalias(t).(*types.Named)
 	if !ok {
 		return nil
 	}
@@ -215,11 +217,12 @@ func checkVarDeclaration(
 			}
 
 			// Skip pointer types - var p *Struct just creates a nil pointer, not an instance
-			if _, ok := t.(*types.Pointer); ok {
+			// (a type alias stands for the type it denotes)
+			if _, ok := types.Unalias(t).(*types.Pointer); ok {
 				continue
 			}
 
-			named, ok := t.(*types.Named)
+			named, ok := types.Unalias(t).(*types.Named)
 			if !ok {
 				continue
 			}
